@@ -1,6 +1,7 @@
 /- Driver half of engine `adp`: adapter pipelines over the `OV` model. -/
 import EyeballVerif.Driver.Vec
 import EyeballVerif.Model.Pipe
+import EyeballVerif.Model.OVecStep
 namespace EV
 
 /-- filter table: `fid = mask + 256 * sel`; an item passes iff bit `x % 8` of `mask` is set;
@@ -55,6 +56,10 @@ structure AdpSt where
   sub : Nat := 0
   hints : List Hint := []
   hasPipe : Bool := false
+  /-- engine `vstep`: where each receiver is inside its `poll_next`, and the item of a poll that has returned in the model
+      but whose `mret` line has not come yet -/
+  ph : Nat → Phase Nat := fun _ => .idle
+  stash : Option String := none
 
 def parseSpec (s : String) : Option StageSpec :=
   match s.splitOn ":" with
@@ -148,6 +153,28 @@ def adpStep (st : AdpSt) (toks : List String) : Option (AdpSt × String) :=
       let h : Hint := { cid := c, vals := vs, perm := p }
       if hintOk h then some ({ st with hints := h :: st.hints }, "ok") else some (st, "bad-perm")
     | _, _, _ => some (st, "bad-op")
+  | ["mrecv", r] =>       -- engine `vstep`: one receive operation of receiver `r`'s current `poll_next`
+    match r.toNat? with
+    | none => some (st, "bad-op")
+    | some i =>
+      if st.stash.isSome then some (st, "norecv") else
+      match ({ ov := st.w.ov, ph := st.ph } : SOV Nat).micro i with
+      | none => some (st, "bad-sub")
+      | some (k, it, s') =>
+        if k = .none then some (st, "norecv")      -- the model performs no receive operation here
+        else some ({ st with w := { st.w with ov := s'.ov }, ph := s'.ph, stash := it.map Item.show }, k.show)
+  | ["mret", r] =>        -- `poll_next` of receiver `r` returns
+    match r.toNat? with
+    | none => some (st, "bad-op")
+    | some i =>
+      match st.stash with
+      | some t => some ({ st with stash := none }, t)
+      | none =>
+        match ({ ov := st.w.ov, ph := st.ph } : SOV Nat).micro i with
+        | none => some (st, "bad-sub")
+        | some (k, some it, s') =>
+          if k = .none then some ({ st with w := { st.w with ov := s'.ov }, ph := s'.ph }, it.show) else some (st, "unfinished")
+        | some (_, none, _) => some (st, "unfinished")
   | _ =>
     match vecStep st.w.ov toks with
     | some (ov', out) => some ({ st with w := { st.w with ov := ov' } }, out)
